@@ -49,6 +49,11 @@ func UnmarshalExecutedBlock(bytes []byte, parser Parser) (*ExecutedBlock, error)
 	if err := b.UnmarshalCanotoFrom(r); err != nil {
 		return nil, err
 	}
+	// the encoding omits a field whose own encoding is empty (the results of the
+	// genesis block): decode it to the empty value it was, never to nil
+	if b.ExecutionResults == nil {
+		b.ExecutionResults = &ExecutionResults{}
+	}
 	b.CalculateCanotoCache()
 	return b, nil
 }
